@@ -367,6 +367,23 @@ def write_evidence(mod, pid, tier, seed, obligations, discharged, refuted, unkno
         samples.append(dict(obligation=r["name"], status=r["status"], backend=r["backend"], time_s=r["time_s"],
                             meta=jsonable({k: v for k, v in r["meta"].items() if k in ("function", "instance", "path", "goal", "file", "lines", "sha256")})))
     funcs = mod.functions() if hasattr(mod, "functions") else []
+    # mechanical scan: every place where the contract module (and the shared contract helpers it imports) ASSUMES something
+    # (preconditions of the contracts) or DEFINES a fact about a symbol (axiom instances of assumed dependency contracts, lemmas
+    # that are proved as their own obligations): listed so that nothing is assumed silently
+    assume_sites = []
+    try:
+        import inspect, re as _re
+        files = {inspect.getsourcefile(mod)}
+        for nm in ("linops", "specs", "galg", "common"):
+            m2 = sys.modules.get("contracts." + nm)
+            if m2 is not None and (nm == "common" or getattr(mod, nm, None) is m2 or nm in getattr(mod, "__dict__", {})):
+                files.add(inspect.getsourcefile(m2))
+        for fpath in sorted(f for f in files if f):
+            for ln, line in enumerate(open(fpath), 1):
+                if _re.search(r"core\.assume\(|core\.define\(", line):
+                    assume_sites.append("%s:%d: %s" % (os.path.relpath(fpath, ROOT), ln, line.strip()[:140]))
+    except Exception as e:      # the scan must never break a check
+        assume_sites = ["scan failed: %s" % e]
     ev = dict(
         property_id=pid, tier=tier, seed=seed, level="proof",
         coverage=dict(
@@ -378,7 +395,7 @@ def write_evidence(mod, pid, tier, seed, obligations, discharged, refuted, unkno
             + list(getattr(mod, "TRUSTED", [])),
             samples=samples or [dict(note="no obligation generated")],
             refuted=len(refuted), undecided=len(unknown),
-            cvc5_crosscheck_of_discharged_sample=crosschecked, by_backend=by_backend, solver_time_s=round(sum(r["time_s"] for r in obligations), 3),
+            assume_and_define_sites=assume_sites, cvc5_crosscheck_of_discharged_sample=crosschecked, by_backend=by_backend, solver_time_s=round(sum(r["time_s"] for r in obligations), 3),
             functions_under_contract=funcs,
             structural_bounds=getattr(mod, "BOUNDS", {}).get(tier, getattr(mod, "BOUNDS", {})),
             bounded=[{k: v for k, v in b.items() if k != "failures"} | {"failures": len(b.get("failures", []))} for b in bounded],
